@@ -21,6 +21,7 @@ META = {
                        "(the C01 repair) - a deliberate bound, not a CDDL rule",
     "trusted_base": ["RFC 8152 CDDL as transcribed in spec/rfc8152.py", "std Vec::remove/len semantics", "ciborium Value data model"],
 }
+META["decides"] += ' R-3 also: no decoding error is swallowed by any caller; R-5 also: read_to_value hands on exactly the parsed item.'
 
 DEC = {"sign::CoseSignature": "sign::CoseSignature::from_cbor_value_depth"}
 WRAPPERS = {
